@@ -271,6 +271,37 @@ def run_d(ck, prog, crate, n_parsers, n_literals, cli_types=True):
                 loose = [ib for ib in inc_blocks if not any(ctx.cfg.dominates(g, ib) for g in guarded)]
                 ck.ob("C20.7", f"{short}|slot-counter-advances-only-with-a-positional|{names8.get(cl, cl)}", not loose, fn=p, site=ctx.site(loose[0]) if loose else None,
                       detail="the counter that selects the positional slot is advanced on a path that did not store a positional (an option token moves later positionals into the wrong slot)")
+        # C20.7 (positional slots): a positional slot is filled only while it is still empty - the slot's own `is_none()` is among the
+        # tests that lead to the store (a last slot filled by the chain's closing `else` swallows every surplus argument);
+        # C20.5 (conversion): a value that does not convert is an error - the result of every FromStr::from_str is matched and its Err
+        # side neither goes on parsing nor reaches a success return (`.ok()` would turn a malformed value into "not given")
+        if p.endswith("::arg_parse"):
+            names9 = {x["p"]["l"]: x["n"] for x in fn.get("names", []) if isinstance(x.get("p", {}).get("l"), int) and not x["p"].get("p")}
+            for b in fn["blocks"]:
+                if b["id"] not in ctx.cfg.live_blocks() or b.get("cleanup") or not ctx.cfg.in_cycle(b["id"]):
+                    continue
+                for i9, st9 in enumerate(b["stmts"]):
+                    if st9["k"] != "assign" or st9["dst"].get("p") or st9["dst"]["l"] not in names9:
+                        continue
+                    v9 = strip_casts(ctx.prov.rvalue(st9["rv"], (b["id"], i9)))
+                    if not (isinstance(v9, tuple) and v9[0] == "agg" and v9[2] == "Some"):
+                        continue
+                    slot_facts = [f for f in panics.dominating_facts(ctx, b["id"]) if f[0] == "variant" and isinstance(strip_casts(f[1]), tuple) and strip_casts(f[1])[0] == "var" and strip_casts(f[1])[1] in names9]
+                    if not slot_facts:
+                        continue        # an option's arm, not the positional chain
+                    own = [f for f in slot_facts if strip_casts(f[1])[1] == st9["dst"]["l"] and f[2] == "None"]
+                    ck.ob("C20.7", f"{short}|positional-slot-filled-only-while-empty|{names9[st9['dst']['l']]}", bool(own), fn=p, site=ctx.site(b["id"]),
+                          detail=f"the positional `{names9[st9['dst']['l']]}` is stored without its own is_none() test: once it is filled, further bare arguments overwrite it instead of being refused")
+            n_conv = 0
+            okb9 = {b["id"] for b in fn["blocks"] if b["id"] in ctx.cfg.live_blocks() and any(s9["k"] == "assign" and s9["dst"]["l"] == 0 and not s9["dst"].get("p") and s9["rv"]["k"] == "agg" and s9["rv"].get("variant") == "Ok" for s9 in b["stmts"])}
+            fetch9 = {bb for bb, t in ctx.cfg.calls(lambda t: (t.get("callee") or "").endswith("Iterator::next"))}
+            for cb9, t9 in ctx.cfg.calls(lambda t: (t.get("callee") or "").endswith("FromStr::from_str")):
+                n_conv += 1
+                errs9 = [e for sb in ctx.cfg.live_blocks() if ctx.cfg.term(sb)["k"] == "switch" for e in ctx.cfg.succ[sb] for f in ctx.edge_facts(e)
+                         if f[0] == "variant" and f[2] == "Err" and isinstance(strip_casts(f[1]), tuple) and strip_casts(f[1])[0] == "call" and strip_casts(f[1])[3] == cb9]
+                good9 = bool(errs9) and not any(ctx.cfg.reachable_from(e.dst) & (okb9 | fetch9) for e in errs9)
+                ck.ob("C20.5", f"{short}|malformed-value-is-an-error|{n_conv}", good9, fn=p, site=ctx.site(cb9),
+                      detail="the result of FromStr::from_str is not matched with its Err side ending in an error: a value that does not convert is accepted as absent")
         # C20.6: the declared grammar is the only thing that decides what happens to a token
         if p.endswith("::arg_parse"):
             ALLOWED_CONSUMERS = ("Try::branch", "FromResidual::from_residual", "fmt::Arguments::<'a>::new", "ArgParseError::new_cause_fmt", "ArgParseError::new_cause_str", "UnixStr::as_str", "FromStr::from_str",
